@@ -104,6 +104,8 @@ def gen(rng, tier):
                             decides=ok, nontrivial=ok, theorem="C06_table_header_from_bytes_data"))
     for b in (b"", b"\x02", b"\x02\xb0"):
         out.append(Case("psi.th %s" % hx(b), kind="th-short", theorem="C06_table_header_short"))
+    for _ in range(40):
+        out.append(Case("psi.th %s" % hx(L.rand_bytes(rng, rng.randrange(3, 12))), kind="th-decode-long", decides=False, nontrivial=False))
     for n in list(range(0, 12)) + [182, 183, 255, 256, 300]:
         out.append(Case("psi.npf %d" % n, kind="npf", decides=n <= 255, nontrivial=n <= 255, theorem="C06_new_pointer_field"))
     out.append(Case("psi.npf -1", kind="fid-npf-neg", decides=False, nontrivial=False))
